@@ -272,6 +272,7 @@ pub fn configs(prop: &str, thorough: bool) -> Vec<(Cfg, Option<usize>)> {
                 GroupEdit { remove: vec![], add: vec![(0, 3)] },
                 GroupEdit { remove: vec![], add: vec![(2, 0)] },
                 GroupEdit { remove: vec![], add: vec![(1, 5)] },
+                GroupEdit { remove: vec![2, 2], add: vec![] },
             ];
             for (n, wv, th) in [
                 ("A1,B5,C1/count2", vec![(0u8, 1u64), (1, 5), (2, 1)], Th::Count(2)),
